@@ -311,8 +311,9 @@ fn child_range(seed: u64, from: u64, to: u64) -> i32 {
     0
 }
 
-fn child_one(mem: usize, program: String, input: String, b_first: bool) -> i32 {
+fn child_one(mem: usize, program: String, input: String, b_first: bool, site: bool) -> i32 {
     child_common_setup();
+    alloc::SITE_ENABLED.store(site, Ordering::Relaxed);
     raw_line("S 0");
     mark_start(0);
     let end = run_trial_thread(0, program, input, mem, b_first);
@@ -666,6 +667,11 @@ fn run_case_cli(case: &Case) -> (Outcome, Option<Failure>) {
 
 /// Run one explicit case in a fresh child and classify it.
 fn run_case(case: &Case) -> (Outcome, Option<Failure>) {
+    run_case_site(case, false)
+}
+
+/// Same, optionally asking the child to report the call site of a class A refusal.
+fn run_case_site(case: &Case, site: bool) -> (Outcome, Option<Failure>) {
     if case.cli {
         return run_case_cli(case);
     }
@@ -685,6 +691,8 @@ fn run_case(case: &Case) -> (Outcome, Option<Failure>) {
         inf.display().to_string(),
         "--b-first".to_string(),
         if case.b_first { "1" } else { "0" }.to_string(),
+        "--site".to_string(),
+        if site { "1" } else { "0" }.to_string(),
     ];
     let child = match spawn_child(&args) {
         Ok(c) => c,
@@ -1091,7 +1099,15 @@ fn run_parent(seed: u64, tier: Tier, runs: u64, workers: usize, want_log_hash: b
             b_first: i % 2 == 1,
             cli: *via_cli,
         };
-        let (min_case, min_f, attempts) = minimise(&case, &f.class);
+        let (min_case, mut min_f, attempts) = minimise(&case, &f.class);
+        if !min_f.class.starts_with("unconfirmed:") {
+            // one more run of the minimised case, asking for the call site of the refusal
+            if let (_, Some(f2)) = run_case_site(&min_case, true) {
+                if f2.class == min_f.class {
+                    min_f = f2;
+                }
+            }
+        }
         if min_f.class.starts_with("unconfirmed:") {
             println!("note: trial {i} ({}) did not recur alone in a fresh child; not reported", f.class);
             continue;
@@ -1253,7 +1269,7 @@ fn replay_file(path: &str) -> i32 {
             return 2;
         }
     };
-    let (o, f) = run_case(&rf.case);
+    let (o, f) = run_case_site(&rf.case, true);
     match f {
         Some(f) => {
             println!("replayed: class={} detail={}", f.class, f.detail);
@@ -1287,7 +1303,8 @@ fn main() {
         let program = get("--program-file").and_then(|p| std::fs::read_to_string(p).ok()).unwrap_or_default();
         let input = get("--input-file").and_then(|p| std::fs::read_to_string(p).ok()).unwrap_or_else(|| "null".into());
         let b_first = get("--b-first").as_deref() == Some("1");
-        std::process::exit(child_one(mem, program, input, b_first));
+        let site = get("--site").as_deref() == Some("1");
+        std::process::exit(child_one(mem, program, input, b_first, site));
     }
     if argv.first().map(String::as_str) != Some("C30") {
         eprintln!("usage: allocsim C30 [--tier quick|thorough] [--runs N] [--seed S] [--workers W] [--log-hash] [--replay FILE]");
